@@ -142,7 +142,24 @@ class Repo(object):
         self.overrides = overrides or {}
         self.modules = {}
         self.files_read = []
-        for m in MODULES:
+        # the modules the rules name, plus every other module a change adds to
+        # the package (a helper module is part of the program, not a library)
+        mods = list(MODULES)
+        pkgdir = os.path.join(self.root, PKG)
+        extra = set()
+        if os.path.isdir(pkgdir):
+            for fn in os.listdir(pkgdir):
+                if fn.endswith(".py"):
+                    extra.add(fn[:-3])
+        for rel in self.overrides:
+            if rel.startswith(PKG + "/") and rel.endswith(".py") and \
+                    "/" not in rel[len(PKG) + 1:]:
+                extra.add(rel[len(PKG) + 1:-3])
+        for m in sorted(extra):
+            if m not in mods and m not in ("__init__", "__main__", "_version",
+                                           "increase_rlimits"):
+                mods.append(m)
+        for m in mods:
             p = os.path.join(self.root, PKG, m + ".py")
             rel = os.path.join(PKG, m + ".py")
             if rel in self.overrides:
